@@ -134,6 +134,17 @@ def cls_efforts(rnd):
                       # efforts below every tolerance: still work, not "done before anything is booked"
                       "0.000000001h", "0.0000000001h", "0.00000000001d", "0.000000001h"])
     k = rnd.random()
+    if k < 0.25 and rnd.random() < 0.5:
+        # 'flags contiguous' with a block that does not fit the free run in front of the task for a long stretch of the
+        # walk (slow resource, long effort, short project): the probe must not count the same free run again for every slot
+        # of it - the bound is proportional to the project's size, not to its square
+        days = rnd.choice([20, 25, 40])
+        hours = rnd.choice(["mon - sun 00:00 - 24:00", "mon - sat 00:00 - 24:00", "mon - sun 02:00 - 23:00"])
+        alloc = rnd.choice(["  allocate r\n", "  allocate r\n", ""])
+        t = ('project p "P" 2025-03-03 +2w {\n  timezone "Etc/UTC"\n%s}\nresource r "r" {\n  efficiency %s\n  workinghours %s\n}\n'
+             'task t "t" {\n  effort %dd\n%s  flags contiguous\n}\ntask u "u" {\n  effort 3h\n  allocate r\n  depends t\n}\n'
+             % (rnd.choice(["", "  workinghours %s\n" % hours]), rnd.choice(["0.1", "0.2", "0.05"]), hours, days, alloc))
+        return dict(res=60), t
     if k < 0.25:
         # 'flags contiguous' (the task must not be split across breaks), with and without an allocation, also in a
         # project that starts inside working hours
